@@ -393,8 +393,8 @@ fn c13_case(r: &mut Rng, idx: u64, rep: &mut Reporter, cover: &mut crate::Cover)
         RecordDataType::ScaledInteger { .. } => "scaled",
     };
     // limit classes
-    let limit_class = r.usize(9);
-    let lim_name = ["absent", "complete-same", "complete-mixed", "partial", "equal", "min>max", "extreme", "nonfinite", "complete-other-type"][limit_class];
+    let limit_class = r.usize(10);
+    let lim_name = ["absent", "complete-same", "complete-mixed", "partial", "equal", "min>max", "extreme", "nonfinite", "complete-other-type", "tiny-width"][limit_class];
     let find = |n: RecordName, p: &[Record]| p.iter().find(|x| x.name == n).map(|x| x.data_type.clone());
     let mk_pair = |r: &mut Rng, d: &RecordDataType, class: usize| -> (Option<RecordValue>, Option<RecordValue>) {
         let same = |r: &mut Rng, d: &RecordDataType| -> (RecordValue, RecordValue) {
@@ -452,6 +452,14 @@ fn c13_case(r: &mut Rng, idx: u64, rep: &mut Reporter, cover: &mut crate::Cover)
                     (Some(RecordValue::Double(0.0)), Some(RecordValue::Double(nf)))
                 }
             }
+            9 => {
+                // a range whose width is a few ulps / subnormal: the inverse of the width is not finite
+                let (a, w): (f64, f64) = *r.pick(&[(0.0, 1e-320), (0.0, 5e-324), (-1e-310, 2e-310), (1.0, f64::EPSILON), (1e300, 1e284), (-5e-324, 1e-323)]);
+                match d {
+                    RecordDataType::Single { .. } => (Some(RecordValue::Single(0.0)), Some(RecordValue::Single(f32::from_bits(1 + r.usize(3) as u32)))),
+                    _ => (Some(RecordValue::Double(a)), Some(RecordValue::Double(a + w))),
+                }
+            }
             8 => {
                 // both limits of one type that differs from the attribute's type
                 match d {
@@ -496,6 +504,31 @@ fn c13_case(r: &mut Rng, idx: u64, rep: &mut Reporter, cover: &mut crate::Cover)
                     RecordDataType::Single { .. } => RecordValue::Single(1.25),
                     _ => RecordValue::Double(-7.5),
                 };
+            }
+        }
+        if limit_class == 9 {
+            // put values at / between / around the tiny limits (float attributes without declared type range)
+            let lims: Option<(f64, f64)> = match (&rec.name, &meta.intensity_limits, &meta.color_limits) {
+                (Intensity, Some(Some(l)), _) => match (&l.intensity_min, &l.intensity_max) {
+                    (Some(a), Some(b)) => Some((crate::readback::model_f64(a, d), crate::readback::model_f64(b, d))),
+                    _ => None,
+                },
+                (ColorRed, _, Some(Some(l))) => match (&l.red_min, &l.red_max) {
+                    (Some(a), Some(b)) => Some((crate::readback::model_f64(a, d), crate::readback::model_f64(b, d))),
+                    _ => None,
+                },
+                _ => None,
+            };
+            if let Some((a, b)) = lims {
+                let cands = [a, b, a + (b - a) * 0.5, a - (b - a), b + (b - a), a, b];
+                for (k, v) in vals.iter_mut().enumerate() {
+                    let x = cands[k % cands.len()];
+                    match d {
+                        RecordDataType::Single { min: None, max: None } => *v = RecordValue::Single(x as f32),
+                        RecordDataType::Double { min: None, max: None } => *v = RecordValue::Double(x),
+                        _ => {}
+                    }
+                }
             }
         }
         vals.sort_by(|a, b| crate::readback::model_f64(a, d).partial_cmp(&crate::readback::model_f64(b, d)).unwrap_or(std::cmp::Ordering::Equal));
